@@ -309,6 +309,18 @@ def run(cx: Cx):
     # consume entries, so a description object that is kept and handed out again makes a second decode see the first one's edits
     import ast as _ast
     dec = cx.prog.cls(DEC + 'Decoder')
+    # a decode keeps what it is building in locals: state parked on the decoder object (self.model = ...) is shared by every decode
+    # that the same decoder runs meanwhile - a hook that loads a sub-model through it hands the rest of this decode the other model
+    dec_classes = {c.qualname for c in [dec] + list(cx.prog.subclasses(dec, strict=True))}
+    parked = [(w, ch) for w, ch in cx.effects.trans_writes(fn) if w.loc and w.loc[0] in dec_classes]
+    if parked:
+        w, ch = parked[0]
+        cx.violation('R-SHARED', fn.qualname, 'decode-keeps-its-state-in-locals',
+                     f"decode() stores to the decoder object ({w.describe()}): a decode started through the same decoder while this one is "
+                     f"in progress (from a hook, or another thread) overwrites it, and the rest of this decode uses the other decode's value",
+                     where=w.where)
+    else:
+        cx.ok('R-SHARED', 'decode() keeps no state on the decoder object', where=cx.where(fn), function=fn.qualname)
     for ci in [dec] + list(cx.prog.subclasses(dec, strict=True)):
         muts = [k for k, v in ci.class_assigns.items() if k != '__slots__' and isinstance(v, (_ast.List, _ast.Dict, _ast.Set, _ast.ListComp,
                                                                                             _ast.DictComp, _ast.Call))]
